@@ -38,6 +38,17 @@ def cells(tier):
     for perm in perms4:
         out.append(mk(PID, tri, False, 'string', perm=perm, widths=[1, 2, 3], T=T, sym_ids=True, may_fail=False,
                       sort_objects=True))
+    # full 32-bit range: ten-digit IDs next to one-digit ones (a wrap-around comparison is refuted here)
+    for perm in ([2, 1, 0], [0, 2, 1], [1, 0, 2]):
+        out.append(mk(PID, pairs[0], True, 'string', perm=perm, widths=[10, 1], T=T, sym_ids=True, may_fail=False,
+                      sort_objects=True))
+    out.append(mk(PID, pairs[1], True, 'file', perm=[2, 0, 1], widths=[10, 10], T=T, sym_ids=True, may_fail=False))
+    # a roReplace is ordered by its message ID like everything else
+    for perm in ([3, 2, 1, 0], [1, 3, 0, 2], [0, 1, 2, 3]):
+        out.append(mk(PID, ('roMetadataReplace', 'roReplace', 'roMetadataReplace'), True, 'string', perm=perm,
+                      widths=[1, 2, 3], T=T, sym_ids=True, may_fail=False, sort_objects=True))
+    out.append(mk(PID, ('roStoryAppend', 'roReplace'), True, 's3', perm=[2, 1, 0], widths=[1, 2], T=T, sym_ids=True,
+                  may_fail=False))
     out.append(mk(PID, tri, True, 's3', perm=[3, 1, 2, 0], widths=[3, 1, 2], T=T, sym_ids=True, may_fail=False))
     out.append(mk(PID, tri, True, 'file', perm=[2, 3, 1, 0], widths=[2, 2, 2], T=T, sym_ids=True, may_fail=False))
     return out
